@@ -102,16 +102,9 @@ Proof.
     destruct (list_eqb (c :: t) [US]) eqn:El; [|reflexivity]. apply list_eqb_eq in El. contradiction.
 Qed.
 
-(* Full statement (false of the code, see snake_ident_ok_refuted):
-     forall s, ident_ok (to_snake s) = true            (a field name rustc accepts) *)
-Theorem snake_ident_ok_partial : forall s,
-  memb (snake_pre s) unescaped_reserved = false -> ident_ok (to_snake s) = true.
-Proof.
-  intros s H. unfold ident_ok. rewrite snake_ident_shape, (snake_not_reserved_partial s H). reflexivity.
-Qed.
-
-Theorem snake_ident_ok_refuted : exists s, ident_ok (to_snake s) = false.
-Proof. exists (s2n "try"). vm_compute. reflexivity. Qed.
+(* every generated field name is an identifier rustc accepts in edition 2021 *)
+Theorem snake_ident_ok : forall s, ident_ok (to_snake s) = true.
+Proof. intro s. unfold ident_ok. rewrite snake_ident_shape, snake_not_reserved. reflexivity. Qed.
 
 (* snake_case output never contains an upper-case letter *)
 Theorem snake_lowercase : forall s, forallb (fun c => negb (is_upper c)) (to_snake s) = true.
